@@ -112,7 +112,7 @@ func (c *FnCtx) applyContract(fr *frame, st *State, con *Contract, ca callArgs, 
 	for _, m := range con.Modifies {
 		c.applyModifies(st, pre, mk(pre, nil), m)
 	}
-	if !con.Pure {
+	if !con.Pure || len(con.Fresh) > 0 {
 		nw := c.declare("wm", "Int")
 		c.assume(st, sx(">=", nw, st.wm))
 		st.wm = nw
@@ -410,6 +410,7 @@ func (eng *Engine) verifyFunction(fn *ssa.Function, con *Contract) (ctx *FnCtx, 
 	for i, p := range fn.Params {
 		v := c.freshVal(st, p.Type(), "p_"+sanitize(p.Name()))
 		fr.regs[p] = v
+		c.replayParams = append(c.replayParams, replayParam{Name: p.Name(), T: p.Type(), V: v})
 		if v.K == kPtr {
 			nonnil := i == 0 && fn.Signature.Recv() != nil && con.RecvNonNil
 			for _, n := range con.NonNil {
@@ -464,7 +465,7 @@ func (eng *Engine) verifyFunction(fn *ssa.Function, con *Contract) (ctx *FnCtx, 
 				o.Canary = true
 			}
 		}
-		if con.Panics != nil {
+		if con.Panics != nil && !con.PanicsMay {
 			c.oblige(rst, "post", "documented panic condition excludes a normal return", not(c.panicCond), fn.Pos(), "panics_when "+con.Panics.Text)
 		}
 	}
